@@ -579,6 +579,7 @@ def main():
         def judge_midway(label, observed, before, after, partial, where):
             """observed / before / after / partial: sets of per-registry answer tuples; one tuple is a
             sequence of separate lookups (each may see another moment), so it is judged query by query"""
+            observed = list(observed)   # a reader thread may still add to the set: judge an atomic snapshot
             for d in observed:
                 for qi, ans in enumerate(d):
                     if any(b[qi] == ans for b in before) or any(a[qi] == ans for a in after):
